@@ -29,12 +29,19 @@ def cases(tier, rng):
         d.update(kw)
         # every other case: the requester is descheduled between sending its request and waiting for the result
         d["slowreq"] = d["when"] == "after" and len(out) % 2 == 0
+        d.setdefault("stagger", False)
         out.append(d)
     for rel in ("link", "monitor"):
         for kind in KINDS:
             for fault in faults_for(kind):
                 add(rel=rel, kind=kind, fault=fault, when="after", obs=rng.choice([1, 2, 3]), pool=rng.choice([1, 2, 3]),
                     call=(fault in ("cut", "stop") and kind in ("pid", "node") and (tier == "thorough" or rel == "link" and kind == "pid")))
+    # the two nodes were started at different times (different incarnation stamps): every target kind, remote termination and node loss
+    for rel in ("link", "monitor"):
+        for kind in KINDS:
+            fs = [f for f in faults_for(kind) if f in ("termkill", "termcustom", "unregister", "cut")]
+            for fault in (fs if tier == "thorough" else rng.sample(fs, min(2, len(fs)))):
+                add(rel=rel, kind=kind, fault=fault, when="after", obs=1, pool=rng.choice([1, 2]), stagger=True)
     # one consumer with relations on several targets of the node that goes away
     for rel in ("link", "monitor"):
         for fault in ("cut", "stop"):
